@@ -176,6 +176,9 @@ func init() {
 			if k := i - ctx.N(18, 120) - 48; k >= 0 && k < 16 {
 				return sharedOutputCase(k)
 			}
+			if k := i - ctx.N(18, 120) - 64; k >= 0 && k < 30 {
+				return fractionalIntBoundCase(k)
+			}
 			return nil
 		},
 		args: func(r *sg.Rng, root *sg.Schema) []string {
@@ -250,6 +253,16 @@ func init() {
 		if k := i - ctx.N(12, 90) - ctx.N(8, 32) - 122; k >= 0 && k < 6 {
 			return aliasDefinitionCase(k)
 		}
+		if k := i - ctx.N(12, 90) - ctx.N(8, 32) - 128; k >= 0 && k < 8 {
+			return nearTwinDefaultCase(k)
+		}
+		if k := i - ctx.N(12, 90) - ctx.N(8, 32) - 136; k >= 0 && k < 3*nearTwinVariants {
+			// two contenders for one type name that differ in a required list / a nullable type
+			if v := k % nearTwinVariants; v == 11 || v == 13 || v == 19 {
+				return nearTwinCase(k)
+			}
+			return skipCase
+		}
 		return nil
 	}
 	regSem(&semSpec{id: "C03",
@@ -305,6 +318,15 @@ func init() {
 			if i < 72 {
 				return extFieldCase(i - 64)
 			}
+			if i < 80 {
+				return percentStringCase(i - 72)
+			}
+			if i < 80+3*nearTwinVariants {
+				if v := (i - 80) % nearTwinVariants; v >= 2 && v <= 5 {
+					return nearTwinCase(i - 80)
+				}
+				return skipCase
+			}
 			return nil
 		},
 		opts:    sg.Opts{MaxDepth: 2, NoFormats: true, RootKinds: true, W: map[string]float64{"string": 10, "integer": 0.5, "number": 0.5, "enum": 0.3, "ref": 2.5, "array": 1.5}, PNullable: 0.3},
@@ -319,6 +341,10 @@ func init() {
 				return nearTwinCase(i)
 			}
 			i -= 3 * nearTwinVariants
+			if i < 3 {
+				return nestedCompositionArrayCase(i)
+			}
+			i -= 3
 			if i > ctx.N(24, 96) && i <= ctx.N(24, 96)+12 {
 				return nullableDefCase(i - ctx.N(24, 96) - 1)
 			}
@@ -369,6 +395,9 @@ func init() {
 			if i < 227 {
 				return enumTripleCase(i - 155)
 			}
+			if i < 245 {
+				return derivedNameCollisionCase(i - 227)
+			}
 			return nil
 		},
 		opts:    sg.Opts{MaxDepth: 2, RootKinds: true, W: map[string]float64{"enum": 10, "array": 2, "ref": 2}, PDefault: 0.4},
@@ -405,7 +434,10 @@ func init() {
 			if i < 85 {
 				return nullableArrayDefaultCase(i - 83)
 			}
-			return sameNameTwinCase(ctx, i-85, r)
+			if i < 93 {
+				return nearTwinDefaultCase(i - 85)
+			}
+			return sameNameTwinCase(ctx, i-93, r)
 		},
 		values: true, defaults: true,
 		nQuick: 400, nThor: 6000, valid: 3, perSite: 3, maxDocs: 120, minDec: 2000,
@@ -471,6 +503,12 @@ func init() {
 					return propertyCountCase(k)
 				} else if k -= 12; k < 72 {
 					c := emptyIntervalCase(k)
+					c.Args = append(c.Args, "--extra-imports")
+					return c
+				} else if k -= 72; k < 12 {
+					return multiTypeRuleCase(k)
+				} else if k -= 12; k < 8 {
+					c := nearTwinDefaultCase(k)
 					c.Args = append(c.Args, "--extra-imports")
 					return c
 				}
@@ -2140,6 +2178,12 @@ func strataForC01(ctx *Ctx) []*sem.Case {
 	add(8, bothDefsKeywordsCase)
 	add(6, untypedDefaultCase)
 	add(16, sharedOutputCase)
+	add(8, nearTwinDefaultCase)
+	add(30, fractionalIntBoundCase)
+	add(3, nestedCompositionArrayCase)
+	add(12, multiTypeRuleCase)
+	add(18, derivedNameCollisionCase)
+	add(8, percentStringCase)
 	add(3*nearTwinVariants, nearTwinCase)
 	add(72, emptyIntervalCase)
 	add(12, propertyCountCase)
